@@ -33,6 +33,7 @@ type opRec struct {
 	wireAtRet  int64 // bytes on the wire when the call returned
 	stanza     bool  // top-level is a stanza: completions apply
 	invalid    bool  // the arguments are invalid: the call must fail and write nothing
+	partial    bool  // the call that is made to fail in the middle of its element
 	startGiven bool
 }
 
